@@ -130,7 +130,20 @@ func (a *Application) getProviderEndpoints(ctx context.Context, providerType str
 		providerEndpoints = a.filterEndpointsByProfile(providerEndpoints, pr.profile, pr.requestLogger)
 	}
 
-	return providerEndpoints, nil
+	// filterEndpointsByProfile falls back to every endpoint when none is compatible, which is right for
+	// the generic proxy route but not here: a provider route must never leave its provider
+	return keepCompatibleEndpoints(providerEndpoints, providerProfile), nil
+}
+
+// keepCompatibleEndpoints drops every endpoint whose type the profile does not accept.
+func keepCompatibleEndpoints(endpoints []*domain.Endpoint, profile *domain.RequestProfile) []*domain.Endpoint {
+	compatible := make([]*domain.Endpoint, 0, len(endpoints))
+	for _, endpoint := range endpoints {
+		if profile.IsCompatibleWith(NormaliseProviderType(endpoint.Type)) {
+			compatible = append(compatible, endpoint)
+		}
+	}
+	return compatible
 }
 
 // filterModelsByProvider ensures model listings only show what's actually available
